@@ -102,6 +102,17 @@ PLAN = {
             {"run": "TestC08_Save", "checks": 6000, "shards": 12, "timeout": 3000},
         ],
     },
+    "C09": {
+        "wtf": True,
+        "quick": [
+            {"run": "TestC09_Notebook", "checks": 12, "cores": 8},
+            {"run": "TestC09_History", "checks": 6, "cores": 8},
+        ],
+        "thorough": [
+            {"run": "TestC09_Notebook", "checks": 400, "shards": 4, "cores": 4, "timeout": 3000},
+            {"run": "TestC09_History", "checks": 200, "shards": 4, "cores": 4, "timeout": 3000},
+        ],
+    },
     "C10": {
         "quick": [
             {"run": "TestC10_Totality", "checks": 4000},
